@@ -198,7 +198,7 @@ def run_workers(binary, prop, seed, total, budget_s, outdir, extra_args=None):
             if timed_out:
                 aborted.append({"run": crashed, "signal": "timeout", "stderr": "killed: no progress long after the deadline"})
                 continue
-            if p.returncode in (-6, -11, 134, 139) and crashed < total and st["restarts"] < 40:
+            if p.returncode in (-6, -11, 134, 139) and crashed < total and st["restarts"] < 400:
                 # the run after the last completed one took the process down
                 aborted.append({"run": crashed, "signal": p.returncode, "stderr": "\n".join([l for l in se.splitlines() if not l.startswith("  ")][:3])})
                 st["restarts"] += 1
@@ -522,8 +522,8 @@ def check_sim_a(tier, seed):
     history_compared = 0
     for run, rb in sorted(rearranged.items()):
         ra = main_by_run.get(run)
-        if ra is None:
-            continue
+        if ra is None or not ra.get("ref_digest") or not rb.get("ref_digest"):
+            continue  # not run, or the process died in it (recorded as process_abort)
         history_compared += 1
         if ra["ref_digest"] != rb["ref_digest"]:
             v = {"property": prop, "invariant": "process_history_dependence", "class": "unclassified",
@@ -542,6 +542,8 @@ def check_sim_a(tier, seed):
             if run in sweep[salt]:
                 ds.add(sweep[salt][run]["digest"])
                 refs.add(sweep[salt][run]["ref_digest"])
+        if "" in ds or "" in refs:
+            continue  # the process died in this run under one of the seeds (recorded as process_abort)
         sweep_compared += 1
         if len(ds) > 1 or len(refs) > 1:
             # report through the ordinary path: attach a violation to the main record
@@ -563,7 +565,7 @@ def check_sim_a(tier, seed):
     vlines, klines, n_viol_runs, details, known_seen = handle_violations(BIN_A, prop, seed, records, opens, payload="workload", extra_args=depth_args or None)
     ok = sum(1 for r in records if r["verdict"] == "Ok")
     shapes = set(r["shape"] for r in records if r.get("shape"))
-    inter = set(r["stats"]["interleaving"] for r in records if len(r["shape"].split("|")[0]) and r["shape"].split("|")[0] != "k1")
+    inter = set(r["stats"]["interleaving"] for r in records if r.get("shape") and r["shape"].split("|")[0] != "k1")
     faults, probes = collections.Counter(), collections.Counter()
     ops = events = 0
     for r in records:
